@@ -191,6 +191,7 @@ MUTANTS = [
  ("c01-nesting-size-compare", "C01", "", "css/validation/validation.go", "\t\t\tif budget := maxNestedSelectorSize; exceedsSize(declarationPrelude, &budget) {\n", "\t\t\tif countTokens := func(l []Token) int { b := maxNestedSelectorSize + 1; exceedsSize(l, &b); return maxNestedSelectorSize + 1 - b }; countTokens(declarationPrelude) > maxNestedSelectorSize {\n"),
  ("c18-use-len-form", "C18", "", "svg/elements.go", "\tif node.attrs[\"href\"] == \"\" { // nothing is referenced\n", "\tif len(node.attrs[\"href\"]) == 0 {\n"),
  ("c01-nesting-size-leq", "C01", "", "css/validation/validation.go", "\t\t\tif budget := maxNestedSelectorSize; exceedsSize(declarationPrelude, &budget) {\n", "\t\t\tif countTokens := func(l []Token) int { b := maxNestedSelectorSize + 1; exceedsSize(l, &b); return maxNestedSelectorSize + 1 - b }; !(countTokens(declarationPrelude) <= maxNestedSelectorSize) {\n"),
+ ("c06-firsttoken-typeswitch", "C06", "", "css/parser/parser.go", "\tif _, isCurly := firstToken.(CurlyBracketsBlock); !IsLiteral(firstToken, \";\") && !isCurly {\n", "\tisCurly := false\n\tswitch firstToken.(type) {\n\tcase CurlyBracketsBlock:\n\t\tisCurly = true\n\t}\n\tif !IsLiteral(firstToken, \";\") && !isCurly {\n"),
 ]
 
 def main():
